@@ -106,13 +106,14 @@ theorem c06_ids_counterexample_old_order :
 theorem c06_nul_rejected (c : Cfg) (rs : List SResp) (ha : c.argvEmpty = false) (hn : c.nul = true) :
     hasFork (parentRun c rs).calls = false ∧
     (acquireAll (stagesOf c) (s0 c) rs).fail ≠ none ∧
-    closedBy (parentRun c rs).calls = (acquireAll (stagesOf c) (s0 c) rs).s.owned := by
+    closedBy (parentRun c rs).calls =
+      (acquireAll (stagesOf c) (s0 c) rs).s.released ++ (acquireAll (stagesOf c) (s0 c) rs).s.owned := by
   obtain ⟨p1, -, -, -, -, -, -, -, -, -, -, hbad, -⟩ := prefork_facts c rs
   obtain ⟨hfail, hnf⟩ := hbad (Or.inl hn)
   cases hf : (acquireAll (stagesOf c) (s0 c) rs).fail with
   | none => exact absurd hf hfail
   | some r =>
     obtain ⟨hc, -⟩ := parentRun_fail c rs ha r hf
-    refine ⟨by rw [hc, hasFork_append, hnf]; simp, by simp, by rw [hc, closedBy_append, p1, closedBy_closeAll]; rfl⟩
+    refine ⟨by rw [hc, hasFork_append, hnf]; simp, by simp, by rw [hc, closedBy_append, p1, closedBy_closeAll]⟩
 
 end Spawn
